@@ -154,7 +154,7 @@ def _prelude(spec, ctx):
         storage.release()
 
 
-def run_once_serial(cfg, *, max_workers=None, prelude=False, around_run=None, warm_objects=False):
+def run_once_serial(cfg, *, max_workers=None, prelude=False, around_run=None, warm_objects=False, displays=False):
     """Run one E2 configuration on the real SerialRunner under the spy."""
     from .e2 import Obs
     spec = cfg.spec
@@ -186,9 +186,11 @@ def run_once_serial(cfg, *, max_workers=None, prelude=False, around_run=None, wa
         lab = labtech.Lab(storage=storage, runner_backend=backend, continue_on_failure=cfg.cof,
                           notebook=False, context=ctx, max_workers=max_workers)
         import contextlib
+        import io
+        quiet = contextlib.redirect_stderr(io.StringIO()) if displays else contextlib.nullcontext()
         try:
-            with (around_run(backend) if around_run is not None else contextlib.nullcontext()):
-                res = lab.run_tasks(req, bust_cache=cfg.bust_cache, disable_progress=True, disable_top=True)
+            with quiet, (around_run(backend) if around_run is not None else contextlib.nullcontext()):
+                res = lab.run_tasks(req, bust_cache=cfg.bust_cache, disable_progress=not displays, disable_top=not displays)
             outcome = ('return', res)
         except Spin as e:
             outcome = ('spin', e)
